@@ -228,7 +228,7 @@ PATTERNS = {"nu": r"line_\d+\.csv", "ldr": r"\w*_ldr_\d+\.csv", "tofwerk": r"\w+
 class C04(Prop):
     id = "C04"
     anchored = ["src/pewlib/io/csv.py"]
-    cases = {"quick": 1300, "thorough": 36000}
+    cases = {"quick": 1300, "thorough": 22000}
     rule = ("synthetic directories in the Nu / iCap LDR / TOFWERK / generic layouts (1..8 line files, numbers 9/10/11/100, "
             "plain / zero-padded / per-file (mixed) padding of the index, LDR sample names with digits and the lines of two "
             "samples in one directory, unequal lengths, 1..4 elements, distractor / hidden / directory entries, shuffled "
@@ -426,7 +426,7 @@ class C04(Prop):
             return [[["nan" if c is None else float(ids[int(core.unrat(c))]).hex() for c in row] for row in line] for line in r["image"]["lines"]]
         return bits(rep["model"]), bits(rep["spec"])
 
-    def import_once(self, pcsv, ctx, d, dirc, call, option, pi, tz):
+    def import_once(self, pcsv, ctx, d, dirc, call, option, pi, tz, path_as="path"):
         """one judged call of load(d, ..., full=True) on the directory `dirc` as it is on disk at `d`:
         -> (impl, model, spec, rep, data, params)"""
         vendor, entries = dirc["vendor"], dirc["entries"]
@@ -452,9 +452,10 @@ class C04(Prop):
         with substitutions(d, [e["name"] for e in entries], pi, tz), warnings.catch_warnings():
             warnings.simplefilter("ignore")
             try:
+                arg = str(d) + ("/" if path_as == "str/" else "") if path_as.startswith("str") else d
                 if call == "detected":
-                    option = pcsv.option_for_path(d)
-                data, params = pcsv.load(d, option=option, full=True)
+                    option = pcsv.option_for_path(arg)
+                data, params = pcsv.load(arg, option=option, full=True)
                 impl = impl_result(data, params, bits=negzero)
             except Exception as e:
                 impl = {"raises": type(e).__name__, "msg": str(e)[:200]}
@@ -479,7 +480,9 @@ class C04(Prop):
         import pewlib.io.csv as pcsv
 
         vendor, entries = case["vendor"], case["entries"]
-        d = ctx.tmpdir() / "lines"
+        # the directory is "lines" under the per-process root (the same path for every case of a worker) unless the case
+        # names it otherwise (a name with spaces / dots / digits / a vendor-like or hidden name)
+        d = ctx.tmpdir() / case.get("dirname", "lines")
         d.mkdir()
         gen_csvdir.write_dir(d, case)
         lines = [e["name"] for e in entries if e["role"] == "line"]
@@ -503,7 +506,7 @@ class C04(Prop):
                 except Exception:
                     pass
         impl, model, spec, rep, _, _ = self.import_once(pcsv, ctx, d, case, "auto" if case["auto"] else "shared", option,
-                                                         case["pi"], case["tz"])
+                                                         case["pi"], case["tz"], case.get("path_as", "path"))
 
         n = len(lines)
         feats = set(case.get("gen_features", [])) | {f"vendor:{vendor}", "n1" if n == 1 else "n2" if n == 2 else "n>=3",
@@ -516,6 +519,10 @@ class C04(Prop):
             feats.add("param-near-rounding-tie")
         if rep["negzero"]:
             feats.add("negative-zero-bits")
+        if case.get("path_as", "path") != "path":
+            feats.add("path-as-str")
+        if case.get("dirname", "lines") != "lines":
+            feats.add("other-directory-name")
         feats |= self.length_features(entries, rep["order"])
         if primers:
             feats.add("history-auto" if case["auto"] else "history-shared-option")
@@ -868,6 +875,9 @@ class C04(Prop):
                 yield {**case, "entries": ents[:i] + ents[i + 1:], "pi": [p for p in case["pi"] if p < nlines - 1]}
         if case["pi"] != sorted(case["pi"]):
             yield {**case, "pi": sorted(case["pi"])}
+        for fld in ("dirname", "path_as"):
+            if fld in case:
+                yield {k: v for k, v in case.items() if k != fld}
         if case["tz"] != "UTC":
             yield {**case, "tz": "UTC"}
         first = 1 if case["vendor"] == "ldr" else 0
